@@ -14,6 +14,12 @@ from .core import Report, Unrecognised, finish
 ALL = [f"C{i:02d}" for i in range(1, 21)]
 
 
+def _is_known(o):
+    from .core import _matches, load_known_findings
+
+    return any(_matches(e, o) for e in load_known_findings()["known"])
+
+
 def run_property(pid: str, tier: str, seed: int, repo=None, write_evidence=True, quiet=False, only_rule=None):
     t0 = time.time()
     report = Report(pid, tier)
@@ -22,8 +28,13 @@ def run_property(pid: str, tier: str, seed: int, repo=None, write_evidence=True,
             from .repo import Repo
 
             repo = Repo()
+        repo.touched = set()
         mod = importlib.import_module(f"sa.rules.{pid.lower()}")
         mod.run(repo, report, tier)
+        if tier == "thorough" and not repo.overrides and not any(o.state != "DISCHARGED" for o in report.obligations if not _is_known(o)):
+            from . import thorough
+
+            thorough.sweep(pid, report, repo)
     except Unrecognised as u:
         report.unrecognised(f"{pid}.engine", "engine", u.what, u.loc)
     except Exception as e:  # noqa: BLE001 - a traceback must never look like a violation
@@ -68,10 +79,10 @@ def main(argv=None):
             rc = max(rc, 2)
             continue
         r, _ = run_property(pid, args.tier, seed, repo=repo, write_evidence=not args.no_evidence and not args.replay, only_rule=only)
-        if r == 2:
-            rc = 2
-        elif r == 1 and rc != 2:
+        if r == 1:
             rc = 1
+        elif r == 2 and rc != 1:
+            rc = 2
     return rc
 
 
